@@ -13,6 +13,7 @@ mod t1_config;
 mod t1_misc;
 mod t1_pw;
 mod t1_sstcp;
+mod t1_stress;
 mod t1_ssudp;
 mod t1_vmess;
 mod util;
@@ -31,8 +32,9 @@ fn exec_case(f: &[&str]) -> Vec<String> {
         "pw" => t1_pw::exec(f),
         "adapt" => t1_adapters::exec(f),
         "sstcp" => t1_sstcp::exec(f),
+        "stress" => t1_stress::exec(f),
         "ssudp" => t1_ssudp::exec(f),
-        "vmbody" | "vmsrv" | "vmcli" => t1_vmess::exec(f),
+        "vmbody" | "vmsrv" | "vmcli" | "vmauthlen" => t1_vmess::exec(f),
         "trojsrv" | "trojcu" | "trojenc" | "trojsenc" | "s5ir" | "s5cr" | "s5irs" | "s5crs" | "s5udp" | "s5udpenc" | "http" => t1_misc::exec(f),
         "s5enc" | "s5dec" | "s5try" | "vmw" | "vmr" => t1_addr::exec(f),
         "cfgcipher" | "cfgproto" | "cfgmode" | "cfgkind" | "cfgobj" | "cfgkdf" | "cfgb64" | "cfgkeys" | "cfguser" | "cfgpath" | "cfgvmess" => t1_config::exec(f),
@@ -73,6 +75,7 @@ fn main() {
             match comp {
                 "pw" => t1_pw::generate(&mut out, seed, thorough),
                 "vmess" => t1_vmess::generate(&mut out, seed, thorough),
+                "stress" => t1_stress::generate(&mut out, seed, thorough),
                 "sstcp" => t1_sstcp::generate(&mut out, seed, thorough),
                 "ssudp" => t1_ssudp::generate(&mut out, seed, thorough),
                 "trojan" => t1_misc::generate_trojan(&mut out, seed, thorough),
